@@ -43,6 +43,6 @@ VARIANTS += [
     V("misc-vjp-returns-reversed", MISC, "    return convert_none_to_zeros(_vjp, inputs)\n", "    return convert_none_to_zeros(_vjp, inputs)[::-1]\n", rule="R11.1"),
     V("misc-vjp-zero-fill-from-outputs", MISC, "    return convert_none_to_zeros(_vjp, inputs)\n", "    return convert_none_to_zeros(_vjp, inputs)[:1] * len(inputs)\n", rule="R11.1"),
     V("misc-jvp-tangent-dropped", MISC, "_jvp = torch.autograd.grad(_vjp, dummy_outputs, grad_outputs=grad_inputs, **kwargs)",
-      "_jvp = torch.autograd.grad(_vjp, dummy_outputs, grad_outputs=[g * 2 for g in grad_inputs], **kwargs)", rule="R11"),
+      "_jvp = torch.autograd.grad(_vjp, dummy_outputs, grad_outputs=grad_inputs * 2, **kwargs)", rule="R11"),
     V("twin-misc-vjp-temporary", MISC, "    return convert_none_to_zeros(_vjp, inputs)\n", "    out = convert_none_to_zeros(_vjp, inputs)\n    return out\n", expect="silent"),
 ]
